@@ -349,6 +349,9 @@ func (l *lexer) scanNumber() token {
 			// If there are no digits after the decimal point,
 			// don't treat the dot as part of the number. It
 			// could be part of the range operator, e.g. "1..5".
+			// The failed acceptAll call has overwritten the
+			// width of the dot, so restore it before backing up.
+			l.width = 1
 			l.backup()
 			return l.newToken(typeNumber)
 		}
